@@ -136,6 +136,27 @@ class HSymMix(_Hooks, SymlinkNodeMixin):
         return "HSymMix(%r)" % (self.target,)
 
 
+class HSymProp(_Hooks, SymlinkNodeMixin):
+    """A mixin subclass whose `target` is a property (e.g. a lazily resolved link)."""
+
+    def __init__(self, target, parent=None, children=None):
+        self.__dict__["_tgt"] = target
+        self.parent = parent
+        if children:
+            self.children = children
+
+    @property
+    def target(self):
+        return self.__dict__["_tgt"]
+
+    @target.setter
+    def target(self, value):
+        self.__dict__["_tgt"] = value
+
+    def __repr__(self):
+        return "HSymProp(%r)" % (self.target,)
+
+
 class HLight(_Hooks, LightNodeMixin):
     __slots__ = ("name", "foo", "bar")
 
@@ -269,6 +290,7 @@ class HLightSub(HLight):
 
 
 CLASSES = {
+    "HSymProp": HSymProp,
     "HNodeNo": HNodeNo,
     "HLightNo": HLightNo,
     "HMixEq": HMixEq,
@@ -286,6 +308,7 @@ CLASSES = {
     "HLightDict": HLightDict,
 }
 FAMILY = {
+    "HSymProp": "node",
     "HNodeNo": "node",
     "HLightNo": "light",
     "HMixEq": "node",
@@ -302,7 +325,7 @@ FAMILY = {
     "HLight": "light",
     "HLightDict": "light",
 }
-LINK_CLASSES = ("HSym", "HSymMix")
+LINK_CLASSES = ("HSym", "HSymMix", "HSymProp")
 
 
 class NonNode(object):
@@ -337,7 +360,7 @@ def make_node(clsname, name, attrs=None, target=None, parent=None, children=None
     base = getattr(cls, "_sim_base", cls.__name__)
     if base in ("HSym",):
         obj.__init__(target, parent=parent, children=children, **attrs)
-    elif base in ("HSymMix",):
+    elif base in ("HSymMix", "HSymProp"):
         obj.__init__(target, parent=parent, children=children)
     elif base == "HAny":
         obj.__init__(parent=parent, children=children, name=name, **attrs)
